@@ -102,6 +102,64 @@ theorem readMutHeader_canonical {file m n w : Bytes} {dl elo : Nat}
     · simp at h
   · simp at h
 
+/-- **`schema_from_header`**: a version is recognised exactly when the *whole* 32-byte magic (readable
+    line and the five anti-collision bytes) equals that version's magic -/
+theorem mutSchemaOf_iff (h : Bytes) (v : Nat) :
+    mutSchemaOf h = some v ↔ ((v = 1 ∧ h.take 32 = mut_MAGIC_v1) ∨ (v = 2 ∧ h.take 32 = mut_MAGIC_v2)) := by
+  obtain ⟨_, _, hne⟩ := magic_lengths
+  simp only [mutSchemaOf]
+  by_cases h2 : h.take 32 = mut_MAGIC_v2
+  · have h1 : ¬ h.take 32 = mut_MAGIC_v1 := fun e => hne (e.symm.trans h2)
+    simp only [h2, ↓reduceIte, Option.some.injEq, and_true]
+    constructor
+    · intro e; exact Or.inr e.symm
+    · rintro (⟨_, e⟩ | e)
+      · exact absurd (h2 ▸ e : mut_MAGIC_v2 = mut_MAGIC_v1) (fun e' => hne e'.symm)
+      · exact e.symm
+  · by_cases h1 : h.take 32 = mut_MAGIC_v1
+    · rw [if_neg h2, if_pos h1]
+      constructor
+      · intro e; simp only [Option.some.injEq] at e; exact Or.inl ⟨e.symm, h1⟩
+      · rintro (⟨e, _⟩ | ⟨_, e⟩)
+        · rw [e]
+        · exact absurd e h2
+    · simp [h1, h2]
+
+/-- **the mutable header reader accepts a file exactly when** it has the 100 header bytes and its first
+    32 bytes are one of the two magics in full -/
+theorem readMutHeader_accepts_iff (file : Bytes) :
+    (∃ r, readMutHeader file = .ok r) ↔
+      (100 ≤ file.length ∧ (file.take 32 = mut_MAGIC_v1 ∨ file.take 32 = mut_MAGIC_v2)) := by
+  have htt : (file.take 100).take 32 = file.take 32 := by
+    rw [List.take_take]; congr 1
+  constructor
+  · rintro ⟨⟨m, n, w, dl, elo⟩, hr⟩
+    obtain ⟨hp, hl, hm⟩ := readMutHeader_canonical hr
+    refine ⟨hl, ?_⟩
+    -- the magic read is the first field of the first 100 bytes
+    have hfirst : (file.take 100).take 32 = m := by
+      have h100 : (file.take 100).length = 100 := by simp; omega
+      simp only [readMutHeader] at hr
+      split at hr
+      · rename_i m' n' w' dl' elo' hu
+        split at hr
+        · simp only [Except.ok.injEq, Prod.mk.injEq] at hr
+          simp only [unpack, h100, size, mutHeaderFields, Field.size, ↓reduceIte, unpackFields, unpackField,
+            Option.some.injEq, List.cons.injEq, Value.bytes.injEq] at hu
+          rw [hu.1]; exact hr.1
+        · simp at hr
+      · simp at hr
+    rw [← htt, hfirst]; exact hm
+  · rintro ⟨hl, hm⟩
+    have h100 : (file.take 100).length = 100 := by simp; omega
+    have hs : (mutSchemaOf (file.take 100)).isSome = true := by
+      rcases hm with hm | hm
+      · rw [(mutSchemaOf_iff (file.take 100) 1).mpr (Or.inl ⟨rfl, by rw [htt]; exact hm⟩)]; rfl
+      · rw [(mutSchemaOf_iff (file.take 100) 2).mpr (Or.inr ⟨rfl, by rw [htt]; exact hm⟩)]; rfl
+    simp only [readMutHeader, unpack, h100, size, mutHeaderFields, Field.size, ↓reduceIte, unpackFields,
+      unpackField, hs]
+    exact ⟨_, rfl⟩
+
 theorem slice_mid (a fld c : Bytes) {off w : Nat} (ha : a.length = off) (hf : fld.length = w) :
     slice (a ++ (fld ++ c)) off w = fld := by
   simp only [slice]
